@@ -225,11 +225,13 @@ class InternalCompiler(Compiler):
             qc.x(iret)
             return iret
 
-        # 1. Compile the expression
+        # 1. Compile the expression; if it was already computed, its qubit may still be
+        # read as it is (by another argument, or by whoever finds it in the cache)
+        shared = expr.args[0] in self.expqmap
         eret = self.compile_expr(qc, expr.args[0])
 
-        # 2. If the expression is on an ancilla, perform the X updating the exp
-        if dest is None and eret in qc.ancilla_lst:
+        # 2. If the expression is on an ancilla computed here, perform the X updating the exp
+        if dest is None and eret in qc.ancilla_lst and not shared:
             qc.x(eret)
             self.expqmap[expr] = eret
             return eret
